@@ -43,3 +43,10 @@ try:
     print('MANIFEST.json valid; %d checks, %d not_applicable' % (len(checks), len(na)))
 except ImportError:
     print('written (jsonschema not available to validate)')
+# the claimed category must be the level the check's own evidence reports (an all-bounded check is 'other', never 'proof')
+for c in checks:
+    f = os.path.join(root, c['evidence_file'])
+    if os.path.exists(f):
+        lv = json.load(open(f)).get('level')
+        if lv != c['level_claimed']['category']:
+            print('WARNING: %s claims category %r but its evidence reports level %r' % (c['property_id'], c['level_claimed']['category'], lv)); sys.exit(1)
